@@ -21,7 +21,7 @@ import (
 	"github.com/hattya/go.sh/interp"
 )
 
-var c17Values = []string{"a", "a b", "a ", "y", "y ", "x", "x ", "a ;", "a |", "if", "b=1", "b=1 ", "> f", "'x'", "a  ", "y \t", "y ; y", "y ; z", "a $(c)", "`c`", "a $((1)) ;", "a ${v:-w}", "a $(c) "}
+var c17Values = []string{"a", "a b", "a ", "y", "y ", "x", "x ", "a ;", "a |", "if", "b=1", "b=1 ", "> f", "'x'", "a  ", "y \t", "y ; y", "y ; z", "a $(c)", "`c`", "a $((1)) ;", "a ${v:-w}", "a $(c) ", "! a", "!"}
 var c17Sigma = []string{"x", "y", "a", "'x'", "x=1", ";", "|", "if", "then", "fi", "(", ")", ">"}
 
 type c17Case struct {
@@ -303,7 +303,7 @@ func c17TextRun(w *W) {
 		}
 		return b.String(), true
 	}
-	genRunes([]rune("a \n;'#$(`\\|x\"<){}"), nv, func(rs []rune) {
+	genRunes([]rune("a \n;'#$(`\\|x\"<){}!="), nv, func(rs []rune) {
 		if len(rs) == 0 || !w.Mine() || w.TimeUp() {
 			return
 		}
@@ -385,7 +385,7 @@ func init() {
 	register(&check{
 		id:    "C17",
 		level: "model_checking",
-		rule: "every alias table with ≤ 2 entries (thorough: ≤ 3) over names {x y z} and the 23-value menu (incl. values with $( ), backquote, $(( )) and ${ } expansions) {a, 'a b', 'a ', y, 'y ', x, 'x ', 'a ;', 'a |', if, b=1, 'b=1 ', '> f', 'x', 'a  ' (two blanks), 'y <blank><tab>', 'y ; y', 'y ; z'} plus 8 fixed three-entry chain/cycle tables and 140 three-entry tables whose outer value holds several commands that are aliases (x → y…z, y → z, z → text) × every symbol string ≤ 3 (thorough: ≤ 4 for the tables of ≤ 2 entries) over {x y a 'x' x=1 ; | if then fi ( ) >}; command substitutions in the source ($( ), backquotes, inside double quotes and ${v:-…}) holding every command list ≤ 2 symbols over {x y a ; | 'x'} and 5 compound forms, for every table of ≤ 2 entries; text level: one alias whose value is every string of ≤ 3 (thorough 4) characters over 17 significant characters (no newline) × 6 continuations of the source, compared with the text in which the word is replaced; " +
+		rule: "every alias table with ≤ 2 entries (thorough: ≤ 3) over names {x y z} and the 25-value menu (incl. values with $( ), backquote, $(( )) and ${ } expansions) {a, 'a b', 'a ', y, 'y ', x, 'x ', 'a ;', 'a |', if, b=1, 'b=1 ', '> f', 'x', 'a  ' (two blanks), 'y <blank><tab>', 'y ; y', 'y ; z'} plus 8 fixed three-entry chain/cycle tables and 140 three-entry tables whose outer value holds several commands that are aliases (x → y…z, y → z, z → text) × every symbol string ≤ 3 (thorough: ≤ 4 for the tables of ≤ 2 entries) over {x y a 'x' x=1 ; | if then fi ( ) >}; command substitutions in the source ($( ), backquotes, inside double quotes and ${v:-…}) holding every command list ≤ 2 symbols over {x y a ; | 'x'} and 5 compound forms, for every table of ≤ 2 entries; text level: one alias whose value is every string of ≤ 3 (thorough 4) characters over 19 significant characters (no newline) × 6 continuations of the source, compared with the text in which the word is replaced; " +
 			"non-trivial = the reference replacement changes the text",
 		assume: []string{"the reference replacement (c17.go unfold) uses the grammar model to find command-name positions; the unfolded text is parsed by the real parser without aliases, so only the substitution itself is modelled",
 			"alias values containing newlines are exercised for termination only (C01)"},
